@@ -8,6 +8,10 @@ C14  The unit registry stays well-formed under any registration history.
 """
 import math
 
+# the histories of this check run on hand-registered databases rebuilt per history: the warm regime of the
+# thorough tier (worlds.warm_up on the shipped table) would only repeat the same exploration
+WARM_REGIME = False
+
 from barril.units import Scalar, UnitDatabase
 from barril.units.posc import MakeBaseToCustomary, MakeCustomaryToBase
 
